@@ -57,6 +57,31 @@ def ast_depth(tree):
     return best
 
 
+def loop_nesting(text):
+    """Maximal nesting of loops (for / while / comprehension generators) in the text, -1 if it does not parse."""
+    try:
+        tree = ast.parse(text)
+    except Exception:
+        return -1
+    best = 0
+    stack = [(tree, 0)]
+    while stack:
+        node, d = stack.pop()
+        if isinstance(node, (ast.For, ast.AsyncFor, ast.While)):
+            d += 1
+        elif isinstance(node, ast.comprehension):
+            d += 1
+        if d > best:
+            best = d
+        for ch in ast.iter_child_nodes(node):
+            stack.append((ch, d))
+    return best
+
+
+def loop_nesting_bucket(text):
+    return 'loop-nesting>=6' if loop_nesting(text) >= 6 else 'loop-nesting<6'
+
+
 def parse_info(text, filename='<string>'):
     """('ok', depth) | ('syntax', (msg, lineno, offset)) | ('other', classname)"""
     try:
@@ -162,6 +187,7 @@ class Runner(object):
         self.nontrivial = 0
         self.seen = set()
         self.root = None
+        self.cpu_limit = CALL_CPU_LIMIT
         self.inputs = {}        # signature -> (api, text, pos, filename) of the smallest failing input
         signal.signal(signal.SIGPROF, _on_alarm)
 
@@ -170,14 +196,22 @@ class Runner(object):
         d[key] = d.get(key, 0) + n
 
     def signature(self, exc):
+        """(exception class, innermost supp frame file, line, function).  For RecursionError the
+        frame where the stack happened to overflow is arbitrary, so the signature names the
+        recursion cycle instead: the set of supp functions among the last frames."""
         tb = traceback.extract_tb(exc.__traceback__)
-        inner = None
+        frames = []
         for fr in tb:
             fn = os.path.realpath(fr.filename)
             if fn.startswith(self.repo + os.sep):
-                inner = (os.path.relpath(fn, self.repo), fr.lineno, fr.name)
-        if inner is None:
+                frames.append((os.path.relpath(fn, self.repo), fr.lineno, fr.name))
+        if not frames:
             return [type(exc).__name__, '?', 0, '?']
+        if isinstance(exc, RecursionError):
+            last = frames[-60:]
+            files = sorted(set(f[0] for f in last))
+            return [type(exc).__name__, '+'.join(files), 0, '+'.join(sorted(set(f[2] for f in last)))]
+        inner = frames[-1]
         return [type(exc).__name__, inner[0], inner[1], inner[2]]
 
     def record(self, sig, case, detail, inp=None):
@@ -191,28 +225,79 @@ class Runner(object):
             if inp:
                 self.inputs[key] = inp
 
-    def probe(self, api, project, text, pos, filename):
-        """Signature of the failure of one call (exceptions only), or None."""
+    def classify(self, api, project, text, pos, filename, pinfo, limit):
+        """One guarded call judged by the oracle: (status, signature or None, detail, result kind)."""
         from supp.linter import lint
         from supp.assistant import assist, location
-        signal.setitimer(signal.ITIMER_PROF, 10)
+        signal.setitimer(signal.ITIMER_PROF, limit)
         try:
             try:
                 if api == 'lint':
-                    lint(project, text, filename)
+                    res = lint(project, text, filename)
                 elif api == 'assist':
-                    assist(project, text, tuple(pos), filename)
+                    res = assist(project, text, tuple(pos), filename)
                 else:
-                    location(project, text, tuple(pos), filename)
+                    res = location(project, text, tuple(pos), filename)
             finally:
                 signal.setitimer(signal.ITIMER_PROF, 0)
         except CallTimeout:
-            return None
-        except SyntaxError:
-            return None
+            return ('timeout', ['Timeout', api, 0, loop_nesting_bucket(text)],
+                    'no answer within %.0f s of CPU time (loop nesting of the text: %s)' % (limit, loop_nesting(text)), None)
+        except SyntaxError as e:
+            if api != 'lint' and pinfo[0] == 'syntax':
+                return ('ok', None, '', 'SyntaxError(allowed)')
+            return ('error', self.signature(e), 'SyntaxError although %s: %s' % (
+                'lint must not raise' if api == 'lint' else 'the cursor-marked text parses', e), None)
+        except RecursionError as e:
+            if pinfo[0] == 'other':
+                return ('excused', None, '', 'RecursionError(parser too)')
+            if pinfo[0] == 'ok' and pinfo[1] * FRAMES_PER_LEVEL + 100 >= sys.getrecursionlimit():
+                return ('excused', None, '', 'RecursionError(nesting %d)' % pinfo[1])
+            return ('error', self.signature(e), 'RecursionError (ast nesting %r, limit %d)' % (pinfo[1], sys.getrecursionlimit()), None)
         except Exception as e:
-            return self.signature(e)
-        return None
+            if pinfo[0] == 'other':
+                return ('excused', None, '', 'out-of-domain')
+            return ('error', self.signature(e), '%s: %s' % (type(e).__name__, str(e)[:300]), None)
+        if api == 'lint':
+            bad = check_lint_result(res, pinfo)
+            kind = 'E01' if pinfo[0] == 'syntax' else 'n=%s' % min(len(res), 3)
+        elif api == 'assist':
+            bad = check_assist_result(res)
+            kind = 'empty' if (bad is None and not res[1]) else 'proposals'
+        else:
+            bad = check_location_result(res)
+            kind = 'empty' if not res else 'locs'
+        if bad:
+            return ('malformed', ['Malformed', api, 0, bad.split(':')[0][:40]], bad, None)
+        return ('ok', None, '', kind)
+
+    def call(self, api, project, text, pos, filename, case, pinfo):
+        """api in lint/assist/location.  pinfo = parse_info of the text the API parses
+        (the text itself for lint, the cursor-marked text for the other two)."""
+        self.calls += 1
+        self.h('api', api)
+        self.h('parse', api + ':' + pinfo[0])
+        case = dict(case, api=api, pos=list(pos) if pos else None)
+        inp = (api, text, tuple(pos) if pos else None, filename, self.root)
+        status, sig, detail, kind = self.classify(api, project, text, pos, filename, pinfo, self.cpu_limit)
+        if sig is not None:
+            self.record(sig, case, detail, inp)
+            return status
+        self.h('outcome', api + ':' + kind)
+        if status == 'ok' and kind not in ('empty', 'SyntaxError(allowed)'):
+            key = hash((api, text, tuple(pos) if pos else None))
+            if key not in self.seen:
+                self.seen.add(key)
+                self.nontrivial += 1
+        return status
+
+    def probe(self, api, project, text, pos, filename):
+        """Signature of the failure of one call, or None."""
+        if api == 'lint':
+            pinfo = parse_info(text, filename)
+        else:
+            pinfo = parse_info(marked_text(text, pos), filename)
+        return self.classify(api, project, text, pos, filename, pinfo, min(10.0, self.cpu_limit))[1]
 
     def shrink_all(self, budget=12.0):
         """Line-based reduction (ddmin over chunks of lines, the cursor line is kept) of the
@@ -221,7 +306,7 @@ class Runner(object):
         for key, (api, text, pos, filename, root) in list(self.inputs.items()):
             f = self.failures[key]
             sig = f['sig']
-            if sig[0] in ('Timeout', 'Malformed') or len(text) < 160 or time.time() > t_end:
+            if sig[0] == 'Timeout' or len(text) < 160 or time.time() > t_end:
                 continue
             project = new_project(root)
             if self.probe(api, project, text, pos, filename) != sig:
@@ -269,77 +354,6 @@ class Runner(object):
                     case['mutation'] = str(case.get('mutation')) + '+shrunk'
                 f['case'] = case
                 f['size'] = len(new) + sum(len(v) for v in (case.get('files') or {}).values())
-
-    def call(self, api, project, text, pos, filename, case, pinfo):
-        """api in lint/assist/location.  pinfo = parse_info of the text the API parses
-        (the text itself for lint, the cursor-marked text for the other two)."""
-        from supp.linter import lint
-        from supp.assistant import assist, location
-        self.calls += 1
-        self.h('api', api)
-        self.h('parse', api + ':' + pinfo[0])
-        case = dict(case, api=api, pos=list(pos) if pos else None)
-        inp = (api, text, tuple(pos) if pos else None, filename, self.root)
-        signal.setitimer(signal.ITIMER_PROF, CALL_CPU_LIMIT)
-        try:
-            try:
-                if api == 'lint':
-                    res = lint(project, text, filename)
-                elif api == 'assist':
-                    res = assist(project, text, tuple(pos), filename)
-                else:
-                    res = location(project, text, tuple(pos), filename)
-            finally:
-                signal.setitimer(signal.ITIMER_PROF, 0)
-        except CallTimeout:
-            self.record(['Timeout', api, 0, ''], case, 'no answer within %.0f s of CPU time' % CALL_CPU_LIMIT)
-            return 'timeout'
-        except SyntaxError as e:
-            if api != 'lint' and pinfo[0] == 'syntax':
-                self.h('outcome', api + ':SyntaxError(allowed)')
-                return 'syntaxerror'
-            sig = self.signature(e)
-            self.record(sig, case, 'SyntaxError although %s: %s' % (
-                'lint must not raise' if api == 'lint' else 'the cursor-marked text parses', e), inp)
-            return 'error'
-        except RecursionError as e:
-            if pinfo[0] == 'other':
-                self.h('outcome', api + ':RecursionError(parser too)')
-                return 'excused'
-            if pinfo[0] == 'ok' and pinfo[1] * FRAMES_PER_LEVEL + 100 >= sys.getrecursionlimit():
-                self.h('outcome', api + ':RecursionError(nesting %d)' % pinfo[1])
-                return 'excused'
-            sig = self.signature(e)
-            self.record(sig, case, 'RecursionError (ast nesting %r, limit %d)' % (pinfo[1], sys.getrecursionlimit()), inp)
-            return 'error'
-        except Exception as e:
-            if pinfo[0] == 'other':
-                # the text is outside the domain (CPython's parser itself gave up)
-                self.h('outcome', api + ':out-of-domain')
-                return 'excused'
-            sig = self.signature(e)
-            self.record(sig, case, '%s: %s' % (type(e).__name__, str(e)[:300]), inp)
-            return 'error'
-        if api == 'lint':
-            bad = check_lint_result(res, pinfo)
-            kind = 'E01' if pinfo[0] == 'syntax' else 'n=%s' % min(len(res), 3)
-        elif api == 'assist':
-            bad = check_assist_result(res)
-            kind = 'empty' if (bad is None and not res[1]) else 'proposals'
-        else:
-            bad = check_location_result(res)
-            kind = 'empty' if not res else 'locs'
-        if bad:
-            self.record(['Malformed', api, 0, bad.split(':')[0][:40]], case, bad)
-            return 'malformed'
-        self.h('outcome', api + ':' + kind)
-        if kind not in ('empty',):
-            k = hash((api, text, tuple(pos) if pos else None))
-            if k not in self.seen:
-                self.seen.add(k)
-                self.nontrivial += 1
-        return 'ok'
-
 
 # ---------------------------------------------------------------------------------------------
 # positions and typing-state mutations
@@ -542,6 +556,7 @@ def job_text(R, job, tmp):
     filename = os.path.join(root, job.get('filename', 'main.py'))
     text = job['source']
     R.root = root
+    R.cpu_limit = float(job.get('cpu_limit') or CALL_CPU_LIMIT)
     project = new_project(root)
     lines = editor_lines(text)
     spec = job.get('positions', 'all')
@@ -555,8 +570,11 @@ def job_text(R, job, tmp):
     case = {'kind': 'text', 'source': text, 'files': job.get('files') or {}, 'filename': job.get('filename', 'main.py'),
             'tag': job.get('tag', '')}
     R.h('input', 'text:' + job.get('tag', 'gen'))
-    run_calls(R, project, text, positions, filename, case, apis=tuple(job.get('apis') or ('assist', 'location')),
-              do_lint=job.get('lint', True))
+    try:
+        run_calls(R, project, text, positions, filename, case, apis=tuple(job.get('apis') or ('assist', 'location')),
+                  do_lint=job.get('lint', True))
+    finally:
+        R.cpu_limit = CALL_CPU_LIMIT
 
 
 def run_jobs(jobs, repo, progress=None):
@@ -1385,7 +1403,8 @@ def _corpus_jobs():
             obj = json.load(open(os.path.join(CORPUS, fn)))
             for c in obj.get('cases', [obj]):
                 job = {'kind': 'text', 'source': c['source'], 'files': c.get('files') or {}, 'filename': c.get('filename', 'main.py'),
-                       'positions': c.get('positions', 'all'), 'tag': 'corpus:' + fn[:-5], 'apis': c.get('apis'), 'lint': c.get('lint', True)}
+                       'positions': c.get('positions', 'all'), 'tag': 'corpus:' + fn[:-5], 'apis': c.get('apis'), 'lint': c.get('lint', True),
+                       'cpu_limit': c.get('cpu_limit')}
                 if fn.startswith('known_'):
                     known.append((obj.get('id', fn[6:-5]), obj.get('what', ''), job))
                 else:
@@ -1551,6 +1570,14 @@ def run(ctx):
             unsupported += 1
             ctx.histogram('I_unsupported', str(e)[:60])
             continue
+        except (RecursionError, KeyError, TypeError, ValueError, IndexError, ImportError) as e:
+            # the real code failed while the project was analysed / walked: a crash with a concrete input
+            key = json.dumps(['EngineCrash', 'analyse', 0, type(e).__name__])
+            counts[key] = counts.get(key, 0) + 1
+            if key not in fails or len(src) < fails[key]['size']:
+                fails[key] = {'sig': json.loads(key), 'size': len(src), 'detail': 'analysing the project raised %s: %s' % (type(e).__name__, str(e)[:200]),
+                              'case': {'kind': 'text', 'source': src, 'files': files, 'filename': 'main.py', 'tag': 'I', 'api': 'lint', 'pos': None}}
+            continue
         except AttributeError as e:
             # a private attribute the dumper reads is gone: fail closed, API-level exploration still runs
             private_ok = False
@@ -1582,7 +1609,7 @@ def run(ctx):
             sc = SourceScope(source)
             extract(source.tree, sc.flow)
             fg, depths, nflows, nloops = dump_flows(sc)
-        except (SyntaxError, UnicodeDecodeError, ValueError, RecursionError):
+        except (SyntaxError, UnicodeDecodeError, ValueError, RecursionError, KeyError, TypeError):
             continue
         except AttributeError as e:
             ctx.notes.append('flow dumper cannot read supp internals (%s)' % e)
@@ -1647,6 +1674,7 @@ def run(ctx):
         poss = interesting_positions(lines, pg_rng, 2)
         samples.append((src, list(poss[0]), CYCLE_FILES[i % len(CYCLE_FILES)]))
     try:
+        sys.setrecursionlimit(max(sys.getrecursionlimit(), 3000))
         lint_terms, loc_terms = _shape_cases(ctx, samples)
         bl = ctx.run_cases(['Model.Eval'], I_PRELUDE, 'lint_case', lint_terms, shard=400) if lint_terms else []
         bo = ctx.run_cases(['Model.Eval'], I_PRELUDE, 'loc_case', loc_terms, shard=400) if loc_terms else []
@@ -1657,19 +1685,19 @@ def run(ctx):
         for i in bo[:3]:
             ctx.violation('location output disagrees with Model.Eval.format_fixed: ' + loc_terms[i][:300], {'kind': 'shape-location', 'term': loc_terms[i],
                           'theorem': 'C08_location_shape correspondence'}, found_input=False)
-    except AttributeError as e:
-        ctx.notes.append('shape recorder cannot hook EvalCtx.declarations (%s)' % e)
+    except (AttributeError, RecursionError) as e:
+        ctx.notes.append('shape level not evaluated (%s: %s)' % (type(e).__name__, e))
     ctx.log('shape: %.1fs' % (time.time() - t0))
 
     # ---- exploration ---------------------------------------------------------------------------------------
     t0 = time.time()
     erng = random.Random('%s/explore' % ctx.seed)
-    nfiles = ctx.pick(110, 100000)
+    nfiles = ctx.pick(100, 100000)
     files = stdlib_files(limit=nfiles, rng=erng)
     npos, nmut, extra = ctx.pick((12, 8, 0), (45, 36, 2))
     for f in files:
         jobs.append({'kind': 'file', 'path': f, 'seed': '%s/%s' % (ctx.seed, os.path.basename(f)), 'npos': npos, 'nmut': nmut, 'extra_pos': extra})
-    nprog = ctx.pick(260, 9000)
+    nprog = ctx.pick(240, 9000)
     for i in range(nprog):
         src = ProgGen(erng).module()
         jobs.append({'kind': 'text', 'source': src, 'files': gen_project_files(erng), 'positions': 'all' if len(src) < 350 else 50,
